@@ -61,7 +61,7 @@ def r1(ctx):
                 fcfg = fcfg or ctx.cfg(fi)
                 key = u(a.slice)
                 ga = util.expanded_guard_atoms(fcfg, fi.node, fcfg.node_containing(a))
-                found = any((not pol) and t in ("self.positions.end() == self.positions.find(%s)" % key, "self.positions.find(%s) == self.positions.end()" % key) for t, pol in ga) or any(pol and t in ("0 < self.positions.count(%s)" % key, "self.positions.count(%s)" % key, "0 != self.positions.count(%s)" % key) for t, pol in ga)
+                found = any((not pol) and t in ("self.positions.end() == self.positions.find(%s)" % key, "self.positions.find(%s) == self.positions.end()" % key) for t, pol in ga) or any(pol and t in ("0 < self.positions.count(%s)" % key, "self.positions.count(%s)" % key, "0 != self.positions.count(%s)" % key) for t, pol in ga) or any((not pol) and t in ("0 == self.positions.count(%s)" % key, "self.positions.count(%s) == 0" % key, "self.positions.count(%s) < 1" % key) for t, pol in ga)
                 ctx.ob(fi.qual, "lookup-does-not-create-an-entry:%s" % key, found, fi.loc(a), "positions[%s] is read only after find(%s) succeeded" % (key, key) if found else "%s reads positions[%s] without an established find(): for an item that is not queued this creates the entry %s -> 0, and a later push or swap works with that stale index" % (name, key, key))
     # ... and the owner that records a pushed item's index overwrites whatever is there (insert()/emplace() keep an old entry)
     push = cls.methods.get("c_push")
